@@ -244,11 +244,15 @@ def observe(cfg, via_pipeline=False):
 # ----------------------------------------------------------------------------------------------
 # direct oracles (independent of the model)
 def factory_kind(cfg):
+    """Generating factory named in signatures: sweep if a sweep occurs anywhere in the nesting (slicers only inherit
+    from the class they wrap), else slice, else the plain / rename / delete / template form; plus the base kind."""
     c0, _ = strip_key(cfg)
-    b = c0
+    chain, b = [], c0
     while "c" in b:
+        chain.append(b["t"])
         b = b["c"]
-    return "%s(%s)" % ("plain" if c0["t"] == "base" else c0["t"], b.get("kind", "K" + b["t"])[1:])
+    f = "sweep" if "sweep" in chain else ("slice" if "slice" in chain else ("plain" if b["t"] == "base" else b["t"]))
+    return "%s(%s)" % (f, b.get("kind", "KContextProcessor")[1:])
 
 
 def oracle(cfg, o):
